@@ -156,6 +156,29 @@ def cases(rng, quick, gr):
                     return "loop over values that mention the shadowed variable differs from its unrolling at operation %d: %s vs %s" % (i, da[i] if i < len(da) else None, db[i] if i < len(db) else None)
                 return None
             yield {"tag": "shadowed-name-in-list", "pred": pred, "key": t_loop, "input": {"check": "unroll", "text": t_loop, "unrolled": t_unr}}
+    # a loop variable called like a free template parameter that the script uses before / after the loop ({m} and m are
+    # different names: inside the body m is the loop value, the parameter stays free)
+    for nm in ("m", "k", "idx", "p0", "lambda"):
+        for ty, hdr, vals in (("int", "[1, 2]", ["1", "2"]), ("int", "0:3", ["0", "1", "2"]), ("float", "[0.5, 1.25]", ["0.5", "1.25"])):
+            for where in ("before", "after", "both"):
+                body = ["Sgate({x}, 0) | 0", "Kgate(l=[{x}, 1], a={x} * 2) | 1"] + (["MeasureFock() | {x}"] if ty == "int" else [])
+                tmpl = "Dgate({%s}, 0.1) | 0\n" % nm
+                head = HDR + (tmpl if where in ("before", "both") else "")
+                tail = (("Rgate(2 * {%s} + 1) | 1\n" % nm) if where in ("after", "both") else "") + "Vac | 3\n"
+                t_loop = head + "for %s %s in %s\n" % (ty, nm, hdr) + "\n".join("    " + b.replace("{x}", nm) for b in body) + "\n" + tail
+                t_unr = head + "\n".join(b.replace("{x}", v) for v in vals for b in body) + "\n" + tail
+
+                def pred(impl, a=t_loop, b=t_unr):
+                    try:
+                        pa = impl.loads(a)
+                    except Exception as e:  # noqa: BLE001
+                        return "a valid loop script was refused (%s: %s)" % (type(e).__name__, str(e)[:100])
+                    da, db = ops_digest(pa), ops_digest(impl.loads(b))
+                    if da != db:
+                        i = next((k for k, (u, v) in enumerate(zip(da, db)) if u != v), min(len(da), len(db)))
+                        return "loop whose variable is called like a free parameter differs from its unrolling at operation %d: %s vs %s" % (i, da[i] if i < len(da) else None, db[i] if i < len(db) else None)
+                    return None
+                yield {"tag": "loop-variable-named-like-parameter", "pred": pred, "key": t_loop, "input": {"check": "unroll", "text": t_loop, "unrolled": t_unr}}
     # bad listed values: must be refused
     bad = [("int", '"a"'), ("int", "1.5"), ("int", "2j"), ("float", '"x"'), ("float", "1j"), ("str", "1"), ("str", "True"),
            ("bool", "2"), ("bool", '"t"'), ("int", '"5"'), ("float", '"1.5"'), ("complex", '"1"'),
